@@ -40,20 +40,39 @@ def title_content():
     return st.one_of(text_content(True).filter(lambda s: s.strip() != ""), st.sampled_from(["Name\tValue", "a\tb", "T", "a longer title than most"]))
 
 
+def title_opts():
+    """Options of a Text given as a title (whole option space)."""
+    return st.one_of(st.none(), st.none(), st.fixed_dictionaries({"tab_size": st.sampled_from([None, 1, 4, 8]), "overflow": st.sampled_from([None, "fold", "crop", "ellipsis", "ignore"]),
+                                                                      "no_wrap": st.sampled_from([None, False, True])}))
+
+
+def title_text(s, justify=None, opts=None):
+    from rich.text import Text
+
+    if opts:
+        return Text(s, justify=justify, **opts)
+    return Text(s, justify=justify)
+
+
 def text_node(mode, small=False):
     over = ["fold", "crop", "ellipsis"] + (["ignore"] if mode == "any" else [])
-    return st.builds(
+    base = st.builds(
         lambda s, j, o, nw: {"k": "text", "s": s, "justify": j, "overflow": o, "no_wrap": nw},
         text_content(small), st.one_of(st.none(), st.sampled_from(JUSTIFY)), st.one_of(st.none(), st.sampled_from(over)),
         st.sampled_from([None, None, False, True] if mode == "any" else [None, False]),
     )
+    if mode != "any":
+        return base
+    # whole option space: the text's own tab size (None = "use the console's"), tabs in the content
+    tabbed = st.builds(lambda n, s, ts: dict(n, s=s, tab_size=ts), base, st.sampled_from(["a\tb", "\t", "x\t\ty\nz\t", "Name\tValue"]), st.sampled_from([None, 1, 4, 8]))
+    return st.one_of(base, base, base, tabbed)
 
 
 def column_spec(mode):
     over = ["fold", "crop", "ellipsis"] + (["ignore"] if mode == "any" else [])
     base = dict(
         header=st.one_of(st.just(""), text_content(True)), footer=st.one_of(st.just(""), text_content(True)), justify=st.sampled_from(JUSTIFY),
-        overflow=st.sampled_from(over), ratio=st.one_of(st.none(), st.integers(1, 4)),  # a zero share is degenerate (negative widths); not treated as a valid option
+        overflow=st.sampled_from(over), ratio=st.one_of(st.none(), st.integers(0 if mode == "any" else 1, 4)),  # a zero share makes "fits" undefined for the width properties; C14 includes it
         max_width=st.one_of(st.none(), st.none(), st.integers(1, 12)),
     )
     if mode == "any":
@@ -64,7 +83,7 @@ def column_spec(mode):
 def table_node(child, mode, max_cols=4, max_rows=4):
     @st.composite
     def build(draw):
-        ncols = draw(st.integers(1, max_cols))
+        ncols = draw(st.integers(0 if mode == "any" else 1, max_cols))
         cols = [draw(column_spec(mode)) for _ in range(ncols)]
         nrows = draw(st.integers(0, max_rows))
         rows = []
@@ -81,6 +100,7 @@ def table_node(child, mode, max_cols=4, max_rows=4):
             "title_text_justify": draw(st.sampled_from([None, None, "left", "center", "right"])),
         }
         if mode == "any":
+            node["title_opts"] = draw(title_opts())
             node["width"] = draw(st.one_of(st.none(), st.none(), st.integers(1, 60)))
             node["min_width"] = draw(st.one_of(st.none(), st.none(), st.integers(1, 60)))
         return node
@@ -93,27 +113,31 @@ def tree_node(label, depth=0):
     return st.builds(lambda l, c, e: {"label": l, "children": c, "expanded": e}, label, kids, st.sampled_from([True, True, True, False]))
 
 
-def node(depth, mode, max_depth=4, allow_pbar=False, allow_cast=True):
+def node(depth, mode, max_depth=4, allow_pbar=False, allow_cast=True, extra=None):
     """allow_pbar: ProgressBar does not end its line (it is meant for table cells), so it is generated only directly inside containers that
     render their child line by line (table, panel, padding, columns, tree) - see known finding F3. allow_cast: __rich__ is resolved one level only."""
     leaf = st.one_of(
         text_node(mode), text_node(mode),
-        st.builds(lambda t, ch, al: {"k": "rule", "title": t, "characters": ch, "align": al}, st.one_of(st.just(""), text_content(True), title_content()), st.sampled_from(["─", "-", "=-", GC.WIDE[0], "━"]), st.sampled_from(["left", "center", "right"])),
+        st.builds(lambda t, ch, al, to: dict({"k": "rule", "title": t, "characters": ch, "align": al}, **({"title_opts": to} if to else {})), st.one_of(st.just(""), text_content(True), title_content()), st.sampled_from(["─", "-", "=-", GC.WIDE[0], "━"]), st.sampled_from(["left", "center", "right"]),
+                  title_opts() if mode == "any" else st.none()),
         st.builds(lambda size, b, e, w: {"k": "bar", "size": size, "begin": min(b, e), "end": max(b, e), "width": w}, st.integers(1, 100), st.integers(0, 100), st.integers(0, 100), st.one_of(st.none(), st.integers(1, 60)) if mode == "any" else st.none()),
     )
+    if extra is not None:
+        leaf = st.one_of(leaf, extra)
     if allow_pbar:
         leaf = st.one_of(leaf, st.builds(lambda total, c, w, p: {"k": "pbar", "total": total, "completed": c, "width": w, "pulse": p}, st.integers(0, 100), st.integers(0, 120), st.one_of(st.none(), st.integers(1, 60)) if mode == "any" else st.none(), st.booleans()))
     if depth >= max_depth:
         return leaf
-    child = st.deferred(lambda: node(depth + 1, mode, max_depth, False, True))       # under align/constrain/styled/group/bare
-    line_child = st.deferred(lambda: node(depth + 1, mode, max_depth, True, True))   # under table/panel/padding/columns/tree
-    nocast_child = st.deferred(lambda: node(depth + 1, mode, max_depth, False, False))
+    child = st.deferred(lambda: node(depth + 1, mode, max_depth, False, True, extra))       # under align/constrain/styled/group/bare
+    line_child = st.deferred(lambda: node(depth + 1, mode, max_depth, True, True, extra))   # under table/panel/padding/columns/tree
+    nocast_child = st.deferred(lambda: node(depth + 1, mode, max_depth, False, False, extra))
     small_child = st.one_of(text_node(mode, True), text_node(mode, True), line_child)
     containers = st.one_of(
         table_node(small_child, mode),
-        st.builds(lambda c, b, t, ta, ex, p, w, tj: {"k": "panel", "child": c, "box": b, "title": t, "title_align": ta, "expand": ex, "padding": p, "width": w, "title_justify": tj},
+        st.builds(lambda c, b, t, ta, ex, p, w, tj, to: dict({"k": "panel", "child": c, "box": b, "title": t, "title_align": ta, "expand": ex, "padding": p, "width": w, "title_justify": tj}, **({"title_opts": to} if to else {})),
                   line_child, st.sampled_from(BOXES), st.one_of(st.none(), title_content()), st.sampled_from(["left", "center", "right"]), st.booleans(), pad_strategy(),
-                  st.one_of(st.none(), st.none(), st.integers(1, 60)) if mode == "any" else st.none(), st.sampled_from([None, None, "left", "center", "right", "full"])),
+                  st.one_of(st.none(), st.none(), st.integers(1, 60)) if mode == "any" else st.none(), st.sampled_from([None, None, "left", "center", "right", "full"]),
+                  title_opts() if mode == "any" else st.none()),
         st.builds(lambda c, p, ex: {"k": "padding", "child": c, "pad": p, "expand": ex}, line_child, pad_strategy(), st.booleans()),
         st.builds(lambda c, a, p, w: {"k": "align", "child": c, "align": a, "pad": p, "width": w}, child, st.sampled_from(["left", "center", "right"]), st.booleans(), st.one_of(st.none(), st.integers(1, 60)) if mode == "any" else st.none()),
         st.builds(lambda c, w: {"k": "constrain", "child": c, "width": w}, child, st.one_of(st.none(), st.integers(1, 80)) if mode == "any" else st.none()),
@@ -131,6 +155,8 @@ def node(depth, mode, max_depth=4, allow_pbar=False, allow_cast=True):
 
 
 # ------------------------------------------------------------------------------------------------ construction
+EXTRA_BUILDERS = {}   # kind -> builder, for leaves a property module adds through node(extra=...)
+
 class Cast:
     def __init__(self, child):
         self.child = child
@@ -167,12 +193,14 @@ def build(n):
 
     k = n["k"]
     if k == "text":
+        if "tab_size" in n:
+            return Text(n["s"], justify=n["justify"], overflow=n["overflow"], no_wrap=n["no_wrap"], tab_size=n["tab_size"])
         return Text(n["s"], justify=n["justify"], overflow=n["overflow"], no_wrap=n["no_wrap"])
     if k == "table":
         t = Table(
             box=getattr(rbox, n["box"]) if n["box"] else None, show_header=n["show_header"], show_footer=n["show_footer"], show_edge=n["show_edge"],
             show_lines=n["show_lines"], leading=n["leading"], padding=tuple(n["padding"]), pad_edge=n["pad_edge"], collapse_padding=n["collapse_padding"],
-            expand=n["expand"], title=Text(n["title"], justify=n.get("title_text_justify")) if n["title"] is not None else None, caption=Text(n["caption"]) if n["caption"] is not None else None,
+            expand=n["expand"], title=title_text(n["title"], n.get("title_text_justify"), n.get("title_opts")) if n["title"] is not None else None, caption=Text(n["caption"]) if n["caption"] is not None else None,
             width=n.get("width"), min_width=n.get("min_width"),
         )
         for c in n["cols"]:
@@ -182,7 +210,7 @@ def build(n):
             t.add_row(*[build(c) for c in r["cells"]], end_section=r["end_section"])
         return t
     if k == "panel":
-        return Panel(build(n["child"]), getattr(rbox, n["box"]), title=Text(n["title"], justify=n.get("title_justify")) if n["title"] is not None else None, title_align=n["title_align"], expand=n["expand"],
+        return Panel(build(n["child"]), getattr(rbox, n["box"]), title=title_text(n["title"], n.get("title_justify"), n.get("title_opts")) if n["title"] is not None else None, title_align=n["title_align"], expand=n["expand"],
                      padding=tuple(n["padding"]), width=n["width"])
     if k == "padding":
         return Padding(build(n["child"]), tuple(n["pad"]), expand=n["expand"])
@@ -203,13 +231,15 @@ def build(n):
             return t
         return mk(n)
     if k == "rule":
-        return Rule(Text(n["title"]) if n["title"] else "", characters=n["characters"], align=n["align"])
+        return Rule(title_text(n["title"], None, n.get("title_opts")) if n["title"] else "", characters=n["characters"], align=n["align"])
     if k == "bar":
         return Bar(n["size"], n["begin"], n["end"], width=n["width"])
     if k == "pbar":
         return ProgressBar(total=n["total"], completed=n["completed"], width=n["width"], pulse=n["pulse"], animation_time=n.get("atime", 1.5))
     if k == "group":
         return RenderGroup(*[build(c) for c in n["children"]], fit=n["fit"])
+    if k in EXTRA_BUILDERS:
+        return EXTRA_BUILDERS[k](n)
     if k == "cast":
         return Cast(build(n["child"]))
     if k == "bare":
@@ -276,7 +306,7 @@ def struct_min(n):
                     m = max(m, walk(c, d + 1))
             return m
         return walk(n, 0)
-    if k in ("rule", "bar", "pbar"):
+    if k in ("rule", "bar", "pbar") or k in EXTRA_BUILDERS:
         return 1
     raise ValueError(k)
 
